@@ -11,7 +11,7 @@ package config
 //@ pred SortedStrict(s []string) := forall i int, j int :: 0 <= i && i < j && j < len(s) ==> s[i] < s[j]
 //@ pred SortedWeak(s []string) := forall i int, j int :: 0 <= i && i < j && j < len(s) ==> !(s[j] < s[i])
 // HasSelectors: the pool is pinned by service selectors.
-//@ pred HasSelectors(p *Pool) := p.ServiceAllocations != nil && len(p.ServiceAllocations.ServiceSelectors) > 0
+//@ opaque pred HasSelectors(p *Pool) := p.ServiceAllocations != nil && len(p.ServiceAllocations.ServiceSelectors) > 0
 
 //@ func poolsByServiceSelector
 //@   requires PoolsKeyed(pools)
